@@ -33,6 +33,7 @@ type c08HQCase struct {
 	Pool       []verifgen.SeenLogical `json:"pool"`
 	HQSeen     []int                  `json:"hq_has_seen"` // pool URLs crawl HQ has seen before the history starts
 	EmptyAs204 bool                   `json:"empty_as_204"`
+	Order      int                    `json:"answer_order,omitempty"` // 0 as asked, 1 reversed, 2 sorted
 	FailAt     int                    `json:"fail_at"` // index of the op at which HQ answers 500 (-1 = never)
 	Ops        []verifseen.Op         `json:"ops"`
 }
@@ -45,6 +46,7 @@ func genC08HQ(t *rapid.T) c08HQCase {
 		}
 	}
 	c.EmptyAs204 = rapid.Bool().Draw(t, "204")
+	c.Order = rapid.IntRange(0, 2).Draw(t, "order")
 	n := rapid.IntRange(1, 5).Draw(t, "nops")
 	for i := 0; i < n; i++ {
 		c.Ops = append(c.Ops, verifseen.GenOp(t, fmt.Sprintf("op%d", i), c.Pool))
@@ -71,7 +73,7 @@ type c08HQEvent struct {
 func propC08HQ(t veriflib.TB, c c08HQCase) {
 	const facet = "C08/hq"
 	ns := fmt.Sprintf("h%d", c08HQNamespace.Add(1))
-	fake := &verifseen.FakeHQ{Project: "verif", Seen: map[string]bool{}, EmptyAs204: c.EmptyAs204}
+	fake := &verifseen.FakeHQ{Project: "verif", Seen: map[string]bool{}, EmptyAs204: c.EmptyAs204, Order: c.Order}
 	for _, i := range c.HQSeen {
 		l := c.Pool[i]
 		fake.Seen[verifseen.IdentityOf(l.Text(ns, verifgen.SeenCanonicalSpelling(l)))] = true
